@@ -83,6 +83,8 @@ def check_queue(ctx, tu, info, q):
 
     # O3 sole writer
     for f in info.members(q):
+        if f.cls in tu.counter_guard_classes() and f.kind in ('ctor', 'dtor'):
+            continue      # the increment / decrement of a recognised guard class (a local RAII struct): judged by the guard's shape
         for w in info.writes(f):
             if last_field(w['path']) == 'queueEmptyCounter' and w['path'][-1] == '.queueEmptyCounter':
                 how = w['how']
